@@ -1406,4 +1406,69 @@ theorem ReachableR.binv {g : Graph} (hwf : graphWF g = true) {c : Nat} {M : Opti
   | init hidden => exact binv_init hc (GraphWF.of_bool hwf) ncls store hidden
   | step w out fuel hr hw hf ih => exact resume_b hc (GraphWF.of_bool hwf) _ w out fuel hw hf ih (hr.basic hwf)
 
+/-! ## the decidable form of the hypotheses, and the run-level bound -/
+
+/-- decidable form of `BClass` -/
+def statefulClass (g : Graph) (c : Nat) (M : Option Int) (sh : Shape) : Bool :=
+  !((g.node g.root).cls == c) &&
+  (g.classNodes c).all (fun j =>
+    !(g.node j).flat && !(g.node j).objectRoot && !(g.node j).sets.isEmpty && decide ((g.node j).maxTries = M) &&
+    decide ((g.node j).shape = sh) &&
+    (List.range g.workers.length).all (fun u => !g.idIn u j ||
+      (List.range g.workers.length).all (fun v => (!g.idIn v j || u == v) && (seen g sh v j == inScopeOf sh g v u))))
+
+theorem statefulClass_spec {g : Graph} {c : Nat} {M : Option Int} {sh : Shape} (h : statefulClass g c M sh = true) :
+    BClass g c M sh := by
+  unfold statefulClass at h
+  simp only [Bool.and_eq_true, Bool.not_eq_true', beq_eq_false_iff_ne, ne_eq, List.all_eq_true, decide_eq_true_eq,
+    List.mem_range, Bool.or_eq_true, beq_iff_eq] at h
+  obtain ⟨hroot, hall⟩ := h
+  have hj : ∀ j, j < g.nodes.length → (g.node j).cls = c → _ := fun j h1 h2 => hall j ((mem_classNodes g c j).mpr ⟨h1, h2⟩)
+  refine ⟨hroot, fun j h1 h2 => ?_, fun j h1 h2 u v hu hv hiu hiv => ?_, fun j h1 h2 u v hu hv hiu => ?_⟩
+  · obtain ⟨⟨⟨⟨⟨a1, a2⟩, a3⟩, a4⟩, a5⟩, _⟩ := hj j h1 h2
+    exact ⟨a1, a2, a3, a4, a5⟩
+  · obtain ⟨_, a6⟩ := hj j h1 h2
+    rcases a6 u hu with h' | h'
+    · rw [hiu] at h'; cases h'
+    · rcases (h' v hv).1 with h'' | h''
+      · rw [hiv] at h''; cases h''
+      · exact h''
+  · obtain ⟨_, a6⟩ := hj j h1 h2
+    rcases a6 u hu with h' | h'
+    · rw [hiu] at h'; cases h'
+    · exact (h' v hv).2
+
+/-- `max_concurrent_tries` is unset or at most `max(max_tries, 1)` on every copy of the class -/
+def mctWithin (g : Graph) (c : Nat) (M : Option Int) : Bool :=
+  (g.classNodes c).all (fun j => match (g.node j).mct with | none => true | some k => decide (k ≤ max (M.getD 1) 1))
+
+theorem classLimit_le_of_mctWithin {g : Graph} {c : Nat} {M : Option Int} {sh : Shape} (hc : BClass g c M sh)
+    (hm : mctWithin g c M = true) (s : State) (hb : NoBump s) : (classLimit g s c : Int) ≤ max (M.getD 1) 1 := by
+  have h := classLimit_noBump_le g s c (max (M.getD 1) 1).toNat hb (fun m hm1 hm2 => by
+    unfold mctWithin at hm
+    rw [List.all_eq_true] at hm
+    have hm' := hm m ((mem_classNodes g c m).mpr ⟨hm1, hm2⟩)
+    unfold limit0
+    rw [(hc.node m hm1 hm2).2.2.2.1]
+    cases hk : (g.node m).mct with
+    | none => simp only [Option.getD_none]; exact Nat.le_refl _
+    | some k =>
+      rw [hk] at hm'
+      simp only [decide_eq_true_eq] at hm'
+      simp only [Option.getD_some]
+      omega)
+  omega
+
+/-- **The budget of a stateful class along every run.** -/
+theorem ReachableR.budgetStateful {g : Graph} (hwf : graphWF g = true) {c : Nat} {M : Option Int} {sh : Shape}
+    (hc : statefulClass g c M sh = true) {ncls : Nat} {store : List (String × List (String × String))} {s : State}
+    (h : ReachableR g ncls store s) (n : Nat) (hn : n < g.nodes.length) (hnc : (g.node n).cls = c) (v : Nat)
+    (hv : v < g.workers.length) :
+    ((sharedFilteredResults g s n (some v)).length : Int) ≤ max (max (M.getD 1) 1) (classLimit g s c) := by
+  have hC := statefulClass_spec hc
+  have b := h.binv hwf hC
+  have hnode := hC.node n hn hnc
+  rw [sfr_length g s c sh n v hn hnode.1 hnc hnode.2.2.2.2 b.resOwn]
+  exact b.budget v hv
+
 end I2N.Trav
